@@ -555,7 +555,9 @@ class LineCoverageInstrumentation(python3_10.LineCoverageInstrumentation):
     instructions_generator = Python311InstrumentationInstructionsGenerator
 
     def should_instrument_line(self, instr: Instr, lineno: int | _UNSET | None) -> bool:  # noqa: D102
-        return instr.lineno != lineno and instr.name != "RESUME"
+        # RESUME and RETURN_GENERATOR do not execute the line they carry: the interpreter reports
+        # no line event for them (e.g. the `def` line is not executed again by calling the function).
+        return instr.lineno != lineno and instr.name not in {"RESUME", "RETURN_GENERATOR"}
 
 
 class CheckedCoverageInstrumentation(python3_10.CheckedCoverageInstrumentation):
